@@ -168,10 +168,10 @@ MORE = {
 MORE2 = {
     'C16': " CATS: in concatenate's package phase names(target fields) and the still-needed names partition the keys of `fields` on every "
            "path, every name left is declared at the end, and the row builder is given all keys of `fields` and the mapping the schema was "
-           "built with.",
+           "built with. DUP: duplicate emits a copy only for the resource whose name equals the source name (never through a pattern match).",
     'C09': " Guard roles: a test of the counter attribute enclosing its write has positive polarity; inside a scan over the descriptors a "
            "per-resource counter is written under the name-equality test; set_attr stores and get_attr returns the stored value; every chunk "
-           "hash_handler reads reaches the digest (text as UTF-8 bytes).",
+           "hash_handler reads reaches the digest (text as UTF-8 bytes). R19d: an existing data file is left in place only under a content-addressed path.",
     'C20': " describe iff the table exists; a path that drops and a path that keeps the existing table both exist; the fixers collected for "
            "array / object fields are applied in list order to the value under the field name; strize is the documented (kind -> result) "
            "table, jsonize is json.dumps, sqlite declares array / object columns as string.",
@@ -180,10 +180,20 @@ MORE2 = {
     'C02': " UPK: update_package removes `resources` from the user's metadata before updating the descriptor. R18t: the field join declares "
            "for an aggregate takes its type from the aggregator or from the source field and carries the source field's properties exactly "
            "for copyProperties aggregators. CATS and NEW-FIELDS as in C16 / C15; an any-typed source makes a computed field `any`.",
-    'C07': " The zone name reaches timezone(offset, name) only under `name is not None`.",
+    'C07': " The zone name reaches timezone(offset, name) only under `name is not None`. The extended-JSON encoder writes dates with the "
+           "platform-probed format. The checkpoint directory is os.path.join(checkpoint_path, checkpoint_name) with the name as given.",
     'C11': " median and update_counter are decided path by path (None / even / odd; nothing new / text as one item / running value made a "
            "Counter); R18t as in C02.",
-    'C18': " (f) also: the test of the collecting loop is constant-true (or `(row := q.get()) is not None`), so the loop ends at the marker only.",
+    'C01': " R1m: the code that decides what a link is consults no module-level container the library also fills and no memoised helper.",
+    'C06': " R13q: every queue created in the modules of row-wise steps has a capacity that is provably >= 1.",
+    'C13': " END: after the zip() loop that pairs descriptors and loaded streams the stream iterator is iterated to its end (a (descriptor, "
+           "iterators) source is exhausted within the run). VAL (shared with C14): CAST_WITH_SCHEMA casts every checked field of every row.",
+    'C04': " END as in C13: a source flow handed to load() is exhausted, so a step of it failing at end of stream fails this run.",
+    'C03': " The format temporal values are written with is the platform-probed constant (one of its values pads the year). R19d: an existing "
+           "data file is left in place only under a content-addressed path.",
+    'C08': " The checkpoint directory is os.path.join(checkpoint_path, checkpoint_name) with the name as given.",
+    'C05': " The checkpoint directory is os.path.join(checkpoint_path, checkpoint_name) with the name as given.",
+    'C18': " (g0) no Barrier / Event / Condition wait of the protocol gives up after a timeout (decided before the channel model is built). (f) also: the test of the collecting loop is constant-true (or `(row := q.get()) is not None`), so the loop ends at the marker only.",
 }
 for _pid, _c in CHECKS.items():
     _c['text'] = _c['text'] + MORE.get(_pid, '') + MORE2.get(_pid, '') + GEN
